@@ -331,8 +331,10 @@ def render_want(k, part, want_tokens, prog, rot):
             lines += stacks[1 + (rot // 4) % 3]
         lines += last.split('\n')
         return lines
-    if w == 'c_replace' and rot % 5 == 0:
-        return ['<BLANKLINE>'] * (1 + rot % 2)        # a wrong want that normalises to nothing
+    if w == 'c_replace' and rot % 5 == 0 and part['body'] in ('execp', 'execpp', 'evalp', 'evalnp'):
+        # a wrong want that normalises to nothing - wrong only for a part that itself printed something: after a silent
+        # statement the empty trailing portion of the output equals it up to the default whitespace normalisation
+        return ['<BLANKLINE>'] * (1 + rot % 2)
     if w == 'nontb' and rot % 7 == 3:
         # a traceback header without a final 'Type: message' line is not a traceback block either
         return [['Traceback (most recent call last):', '...'], ['Traceback (most recent call last):', '    ...'], ['Traceback (most recent call last):']][rot % 3]
